@@ -538,6 +538,39 @@ func runC09(w *World, r *Report) {
 		}
 	}
 
+	// ---------- R10 the mapping table only grows
+	r.Rule("C09-R10", "the mapping table is append-only", "entries of nameMappings are only added (UpdateNameMappings stores the entries it is given); nothing deletes or replaces the entries another task registered on the shared writer", 2)
+	for _, spec := range []struct{ pkg, recv string }{{pkgWriter, "ChannelWriter"}, {pkgReader, "TargetClient"}} {
+		nStore, bad := 0, token.NoPos
+		for _, g := range w.RepoFuncs() {
+			if g.Pkg.Pkg.Path() != spec.pkg {
+				continue
+			}
+			eachInstr(g, func(in ssa.Instruction) {
+				c, ok := in.(*ssa.Call)
+				if !ok {
+					return
+				}
+				rv := callRecv(c.Common())
+				if rv == nil || !strings.HasSuffix(w.accessPath(rv), ".nameMappings") {
+					return
+				}
+				switch callSym(c.Common()).name {
+				case "Store":
+					nStore++
+				case "Delete", "LoadAndDelete", "Clear", "CompareAndDelete":
+					bad = c.Pos()
+				}
+			})
+		}
+		cons := fmt.Sprintf("(*%s).nameMappings | only grows", spec.recv)
+		if nStore == 0 {
+			r.Undecided("C09-R10", cons, 0, "no Store into nameMappings found")
+			continue
+		}
+		r.Check(bad == token.NoPos, "C09-R10", cons, bad, fmt.Sprintf("%d Store site(s), no removal", nStore), "entries are removed from the mapping table: the writer is shared by all tasks of a target, so a second task's update deletes the first task's mapping and its operations go to the unmapped names")
+	}
+
 	// ---------- R5 DML arms
 	supported := supportedMsgTypes(w)
 	hrm := w.Func(pkgWriter, "ChannelWriter", "HandleReplicateMessage")
